@@ -496,6 +496,23 @@ func payloadIsSerialisedRecord(c *Ctx, w *ssa.Call) (bool, string) {
 	if cv, ok := v.(*ssa.Convert); ok {
 		v = resolveAt(cv.X, w.Block())
 	}
+	// append(record, '\n') / append(record, "\n"...): the record and its terminator in one buffer
+	if ac, ok := v.(*ssa.Call); ok && calleeKey(&ac.Call) == "builtin append" && len(ac.Call.Args) == 2 {
+		onlyNewline := false
+		if s, isC := constString(ac.Call.Args[1]); isC && s == "\n" {
+			onlyNewline = true
+		} else if vs := varargValues(ac.Call.Args[1]); len(vs) == 1 {
+			if n, isC := constInt(vs[0]); isC && n == 10 {
+				onlyNewline = true
+			}
+		}
+		if onlyNewline {
+			v = resolveAt(peel(ac.Call.Args[0]), w.Block())
+			if cv, ok := v.(*ssa.Convert); ok {
+				v = resolveAt(cv.X, w.Block())
+			}
+		}
+	}
 	ex, ok := v.(*ssa.Extract)
 	if !ok || ex.Index != 0 {
 		return false, "written value is not the result of the serialiser"
